@@ -16,8 +16,9 @@ func init() {
 }
 
 // DN pool: none is a substring of another.
-var vUserPool = []string{"cn=alice,ou=people,dc=example,dc=org", "cn=bob,ou=people,dc=example,dc=org"}
-var vUserRDN = []string{"cn=alice", "cn=bob"}
+// the second DN has an upper-case letter (DNs are stored and matched as given)
+var vUserPool = []string{"cn=alice,ou=people,dc=example,dc=org", "cn=Bob,ou=people,dc=example,dc=org"}
+var vUserRDN = []string{"cn=alice", "cn=Bob"}
 var vGroupPool = []string{"cn=admins,ou=groups,dc=example,dc=org"}
 
 // reference model of one entry: attribute name -> values, in attribute order
@@ -101,10 +102,27 @@ func searchUser(d *Directory, id int64, k int) []gldap.VResponse {
 	return x.Responses()
 }
 
+// searchByDN runs the generic search handler with the entry's DN as the search base.
+func searchByDN(d *Directory, id int64, k int) []gldap.VResponse {
+	x := gldap.VSearchExchange(id, vUserPool[k], "(objectClass=*)")
+	d.handleSearchGeneric(vT{})(x.W, x.Req)
+	return x.Responses()
+}
+
 // checkSearch: searching for pool entry k returns exactly the reference entry (or noSuchObject).
 func checkSearch(d *Directory, ref []*refEntry, k int, lbl string) {
 	rs := searchUser(d, 77, k)
 	want := refFind(ref, vUserPool[k])
+	// the same question asked through the generic handler with the DN as search base
+	gs := searchByDN(d, 78, k)
+	gldap.VAssert(len(gs) >= 1, lbl+": base-DN search answered")
+	if len(gs) >= 1 {
+		if want == nil {
+			gldap.VAssert(len(gs) == 1, lbl+": base-DN search finds nothing for an absent entry")
+		} else {
+			gldap.VAssert(len(gs) == 2 && gs[0].DN == want.dn && gs[1].Code == gldap.ResultSuccess, lbl+": base-DN search finds a present entry exactly once")
+		}
+	}
 	gldap.VAssert(len(rs) >= 1, lbl+": search answered")
 	if len(rs) == 0 {
 		return
